@@ -13,6 +13,7 @@ import (
 func init() {
 	vpRegister("vpH_C04_built", vpH_C04_built)
 	vpRegister("vpH_C04_merged", vpH_C04_merged)
+	vpRegister("vpH_C04_later", vpH_C04_later)
 }
 
 // vpFile is an in-memory io.ReaderAt with os.File semantics (short read at the
@@ -20,6 +21,7 @@ func init() {
 type vpFile struct {
 	data     []byte
 	failFrom int
+	failOnce bool // only the failFrom-th ReadAt fails (a transient fault)
 	reads    int
 }
 
@@ -28,7 +30,7 @@ var errVPStorage = errors.New("vp: injected storage failure")
 func (f *vpFile) ReadAt(p []byte, off int64) (int, error) {
 	k := f.reads
 	f.reads++
-	if f.failFrom >= 0 && k >= f.failFrom {
+	if f.failFrom >= 0 && k >= f.failFrom && !(f.failOnce && k > f.failFrom) {
 		return 0, errVPStorage
 	}
 	if off < 0 || off > int64(len(f.data)) {
@@ -127,4 +129,28 @@ func vpH_C04_merged() {
 		vpRoundTrip("merged", ms)
 	}
 	vpReach("C04 merged end")
+}
+
+// C04 when the built segment stays in memory while the pooled builder builds
+// another batch: what is loaded back from the written file still reads
+// identically to the original.
+func vpH_C04_later() {
+	g := vpNewGen(0)
+	docs := g.batch("b", 1, 2, []int{2, 5, 7, 10})
+	g.done()
+	probeF, probeT := []string{"zz"}, []string{"q"}
+	vpPoolReuse(true)
+	vpPoolFlush()
+	seg := vpBuild(docs, 1025)
+	b := vpPersist(seg)
+	later := [][]*vpDoc{
+		{{fields: []*vpField{{name: "aa", store: true, value: []byte("v"), length: 1, terms: []*vpTerm{{term: []byte("k"), freq: 1}}},
+			{name: "zz", length: 1, terms: []*vpTerm{{term: []byte("k"), freq: 1}}}}}},
+		{},
+	}[vpChoice("later-batch", 2)]
+	vpBuild(later, 1)
+	vpPoolReuse(false)
+	lf, _ := vpLoadFile(b)
+	vpSameObs("original (after a later build) vs loaded(file)", vpObserve(seg, probeF, probeT), vpObserve(lf, probeF, probeT))
+	vpReach("C04 later end")
 }
